@@ -140,14 +140,16 @@ impl TableBuilder for PostgresQueryBuilder {
                     let first = column_def.types.is_none();
 
                     column_def.spec.iter().fold(first, |first, column_spec| {
-                        if !first
-                            && !matches!(
-                                column_spec,
-                                ColumnSpec::AutoIncrement
-                                    | ColumnSpec::Generated { .. }
-                                    | ColumnSpec::Using(_)
-                            )
-                        {
+                        if matches!(
+                            column_spec,
+                            ColumnSpec::AutoIncrement
+                                | ColumnSpec::Generated { .. }
+                                | ColumnSpec::Comment(_)
+                        ) {
+                            // nothing is written for these, so no separator either
+                            return first;
+                        }
+                        if !first && !matches!(column_spec, ColumnSpec::Using(_)) {
                             write!(sql, ", ").unwrap();
                         }
                         match column_spec {
